@@ -46,6 +46,9 @@ EXTENDS Integers, FiniteSets, Sequences, TLC
 CONSTANTS OpBudget,    \* how many operator commands may be issued (model checking bound)
           OpKinds,     \* which of "pause", "resume", "stop" the operator may issue
           DupBudget,   \* how many redeliveries may happen
+          Scheduler,   \* "default" (scheduler/default_scheduler.py: capture / invoke / delete per job) or "legacy"
+                       \* (services/legacy_scheduler.py, the configured default: one poll pass captures every due call, invokes them one
+                       \* by one, deletes them all)
           NoopOps      \* TRUE: operator commands without effect (pause of a PAUSED execution, resume of a RUNNING one, any
                        \* command on a finished one) are steps too - needed to follow recorded runs, wasteful when model checking
 
@@ -58,11 +61,12 @@ VARIABLES D,        \* the abstract definition (never changes)
           ptq,      \* post-commit batches: set of [id, ops]   (ops: sequence of [op, t, k, fr, w])
           jobs,     \* scheduler job rows: set of [id, func, t, at, phase]   phase "new" | "captured" | "ran"
           backlog,  \* commands saved in the execution's runtime context while it is PAUSED (sequence of [c, t])
+          lpass,    \* legacy scheduler only: the poll pass in progress [active, todo (job ids still to invoke), all (ids captured)]
           now,
           hist,     \* history of the run: situations of the known findings, budgets used
           ev        \* last event (history)
-vars == <<D, wf, tk, ax, msgs, seen, ptq, jobs, backlog, now, hist, ev>>
-view == <<D, wf, tk, ax, msgs, seen, ptq, jobs, backlog, now, hist>>
+vars == <<D, wf, tk, ax, msgs, seen, ptq, jobs, backlog, lpass, now, hist, ev>>
+view == <<D, wf, tk, ax, msgs, seen, ptq, jobs, backlog, lpass, now, hist>>
 
 Final   == {"SUCCESS", "ERROR", "CANCELLED"}
 Done(s) == s \in Final \cup {"SKIPPED"}
@@ -77,6 +81,7 @@ SeqOf(S) == CHOOSE s \in AnyPerm(S) : TRUE
 Permute(s, pm) == [i \in 1..Len(s) |-> s[pm[i]]]
 Fresh(used) == CHOOSE i \in 1..(Cardinality(used) + 1) : i \notin used
 Ids(S) == {x.id : x \in S}
+NoPass == [active |-> FALSE, todo |-> <<>>, all |-> {}]
 H0 == [rearmed |-> FALSE,     \* a started / finished join was set back to WAITING by Task.defer (KF-C04-1)
        resumeJoin |-> {},     \* joins created or re-armed by the dispatch inside resume_workflow (KF-C10-1 / KF-C10-6)
        noopResume |-> FALSE,  \* a resume found only commands without effect to dispatch (KF-C10-8)
@@ -195,7 +200,8 @@ Complete(S, t, s) ==
   IF Done(S.tk[t].state) THEN {S}
   ELSE LET cmds  == IF S.wf \in Final THEN <<>> ELSE Cmds(t, s)
            nexts == {cmds[i].t : i \in {j \in 1..Len(cmds) : cmds[j].c = "run"}}
-           tk1   == [S.tk EXCEPT ![t] = [state |-> s, next |-> nexts, processed |-> (S.wf # "PAUSED"),
+           \* (while PAUSED the processed flag is left as it is - FALSE for a fresh row, possibly TRUE for a re-armed join)
+           tk1   == [S.tk EXCEPT ![t] = [state |-> s, next |-> nexts, processed |-> (IF S.wf = "PAUSED" THEN S.tk[t].processed ELSE TRUE),
                                          errHandled |-> (ErrHandled(t, s) /\ S.wf \notin Final)]]
        IN IF S.wf = "PAUSED" THEN {[S EXCEPT !.tk = tk1]}
           ELSE Dispatch([S EXCEPT !.tk = tk1, !.ops = IF nexts = {} THEN Append(@, Op("check", "")) ELSE @], cmds, FALSE)
@@ -223,6 +229,7 @@ Init == /\ wf = "none"
         /\ tk = [x \in Names |-> NoRow]
         /\ ax = [x \in Names |-> <<>>]
         /\ msgs = {} /\ seen = {} /\ ptq = {} /\ jobs = {} /\ backlog = <<>> /\ now = 0
+        /\ lpass = NoPass
         /\ hist = H0
         /\ ev = [a |-> "Init"]
 
@@ -235,7 +242,7 @@ StartWorkflow ==
         Commit(S)
   /\ jobs' = NewJob(jobs, "integrity", "", now + IntegrityDelay)
   /\ seen' = IF DupBudget > hist.dups THEN {Msg("start_workflow", "", 0, "", TRUE, FALSE)} ELSE {}
-  /\ UNCHANGED <<D, msgs, now>>
+  /\ UNCHANGED <<D, msgs, lpass, now>>
   /\ ev' = [a |-> "StartWorkflow"]
 
 PtqStep(b) ==
@@ -254,7 +261,7 @@ PtqStep(b) ==
                   /\ UNCHANGED <<wf, msgs>>
                   /\ jobs' = IF \E j \in jobs : j.func = "refresh" /\ j.t = o.t /\ j.phase = "new"
                              THEN jobs ELSE NewJob(jobs, "refresh", o.t, now)
-  /\ UNCHANGED <<D, tk, ax, seen, backlog, now, hist>>
+  /\ UNCHANGED <<D, tk, ax, seen, backlog, lpass, now, hist>>
 
 \* task_handler.run_task
 HandleStartTask(m) ==
@@ -288,7 +295,7 @@ Deliver(m) ==
   /\ m \in msgs
   /\ Handle(m, FALSE)
   /\ seen' = Remember(m)
-  /\ UNCHANGED <<D, jobs, now>>
+  /\ UNCHANGED <<D, jobs, lpass, now>>
   /\ ev' = [a |-> "Deliver", m |-> m.m, t |-> m.t, k |-> m.k, fr |-> m.fr, res |-> m.res]
 \* redelivery of a message that was delivered before (reliable messaging may deliver twice)
 Dup(c) ==
@@ -305,18 +312,17 @@ Dup(c) ==
   /\ seen' = IF DupBudget > hist.dups + 1
              THEN seen \cup (IF c.m = "run_action" THEN {Msg("on_action_complete", c.t, c.k, "ERROR", TRUE, FALSE)} ELSE {})
              ELSE {}
-  /\ UNCHANGED <<D, jobs, now>>
+  /\ UNCHANGED <<D, jobs, lpass, now>>
   /\ ev' = [a |-> "Dup", m |-> c.m, t |-> c.t, k |-> c.k, fr |-> c.fr, res |-> c.res]
 
 JobCapture(j) ==
+  /\ Scheduler = "default"
   /\ j \in jobs /\ j.phase = "new" /\ j.at <= now
   /\ jobs' = (jobs \ {j}) \cup {[j EXCEPT !.phase = "captured"]}
-  /\ UNCHANGED <<D, wf, tk, ax, msgs, seen, ptq, backlog, now, hist>>
+  /\ UNCHANGED <<D, wf, tk, ax, msgs, seen, ptq, backlog, lpass, now, hist>>
   /\ ev' = [a |-> "JobCapture", func |-> j.func, t |-> j.t]
-JobInvoke(j) ==
-  /\ j \in jobs /\ j.phase = "captured"
-  /\ ev' = [a |-> "JobInvoke", func |-> j.func, t |-> j.t]
-  /\ LET ran == (jobs \ {j}) \cup {[j EXCEPT !.phase = "ran"]} IN
+\* the body of a scheduled job (one transaction); `ran` = the job rows after this invocation
+InvokeBody(j, ran) ==
      IF j.func = "integrity"
      THEN \* _check_and_fix_integrity: nothing to fix in these runs; re-arms itself while the execution is unfinished
           /\ jobs' = IF wf \in Final THEN ran ELSE NewJob(ran, "integrity", "", now + 120)
@@ -332,12 +338,44 @@ JobInvoke(j) ==
                      Commit(StartAction([Cur EXCEPT !.tk[t].state = "RUNNING"], t))
                 ELSE \* complete_task(ERROR, 'Failed by tasks: ...') with the usual routing
                      \E S \in CompleteAndCheck(Cur, t, "ERROR") : Commit(S)
-  /\ UNCHANGED <<D, msgs, seen, now>>
+JobInvoke(j) ==
+  /\ Scheduler = "default"
+  /\ j \in jobs /\ j.phase = "captured"
+  /\ ev' = [a |-> "JobInvoke", func |-> j.func, t |-> j.t]
+  /\ InvokeBody(j, (jobs \ {j}) \cup {[j EXCEPT !.phase = "ran"]})
+  /\ UNCHANGED <<D, msgs, seen, lpass, now>>
 JobDelete(j) ==
+  /\ Scheduler = "default"
   /\ j \in jobs /\ j.phase = "ran"
   /\ jobs' = jobs \ {j}
-  /\ UNCHANGED <<D, wf, tk, ax, msgs, seen, ptq, backlog, now, hist>>
+  /\ UNCHANGED <<D, wf, tk, ax, msgs, seen, ptq, backlog, lpass, now, hist>>
   /\ ev' = [a |-> "JobDelete", func |-> j.func, t |-> j.t]
+
+(* ---- legacy scheduler: one poll pass = capture every due call, invoke them one by one, delete them all ---- *)
+LPoll ==
+  /\ Scheduler = "legacy" /\ ~lpass.active
+  /\ LET due == {j \in jobs : j.phase = "new" /\ j.at <= now} IN
+       /\ due # {}
+       /\ jobs' = (jobs \ due) \cup {[j EXCEPT !.phase = "captured"] : j \in due}
+       \* (the calls are invoked in the order of their execution time; ties in an order the database chooses)
+       /\ \E ord \in AnyPerm({j.id : j \in due}) :
+             /\ \A a, b \in 1..Len(ord) : a < b => (CHOOSE j \in due : j.id = ord[a]).at <= (CHOOSE j \in due : j.id = ord[b]).at
+             /\ lpass' = [active |-> TRUE, todo |-> ord, all |-> {j.id : j \in due}]
+  /\ UNCHANGED <<D, wf, tk, ax, msgs, seen, ptq, backlog, now, hist>>
+  /\ ev' = [a |-> "LPoll"]
+LInvoke ==
+  /\ Scheduler = "legacy" /\ lpass.active /\ lpass.todo # <<>>
+  /\ LET j == CHOOSE x \in jobs : x.id = Head(lpass.todo) IN
+       /\ ev' = [a |-> "LInvoke", func |-> j.func, t |-> j.t]
+       /\ InvokeBody(j, (jobs \ {j}) \cup {[j EXCEPT !.phase = "ran"]})
+  /\ lpass' = [lpass EXCEPT !.todo = Tail(@)]
+  /\ UNCHANGED <<D, msgs, seen, now>>
+LDelete ==
+  /\ Scheduler = "legacy" /\ lpass.active /\ lpass.todo = <<>>
+  /\ jobs' = {j \in jobs : j.id \notin lpass.all}
+  /\ lpass' = NoPass
+  /\ UNCHANGED <<D, wf, tk, ax, msgs, seen, ptq, backlog, now, hist>>
+  /\ ev' = [a |-> "LDelete"]
 
 (* ---- operator commands (each is one transaction of DefaultEngine) ---- *)
 Spend(S) == [S EXCEPT !.hist.ops = @ + 1]
@@ -345,7 +383,7 @@ Spend(S) == [S EXCEPT !.hist.ops = @ + 1]
 OpPause ==
   /\ wf # "none" /\ hist.ops < OpBudget /\ "pause" \in OpKinds /\ (NoopOps \/ wf = "RUNNING")
   /\ Commit(Spend(IF wf = "RUNNING" THEN [Cur EXCEPT !.wf = "PAUSED", !.hist.paused = TRUE] ELSE Cur))
-  /\ UNCHANGED <<D, msgs, seen, jobs, now>>
+  /\ UNCHANGED <<D, msgs, seen, jobs, lpass, now>>
   /\ ev' = [a |-> "OpPause"]
 \* resume_workflow: only for a PAUSED execution.  Workflow.resume: RUNNING; commands = RunExistingTask for every IDLE task
 \* + the routing of every task that completed while paused (pause commands dropped); those tasks become processed; then
@@ -367,7 +405,7 @@ OpResume ==
                   THEN Commit([S0 EXCEPT !.wf = Checked("RUNNING", tk1)])
                   ELSE \E S \in Dispatch(S0, cmds, TRUE) :
                           Commit([S EXCEPT !.hist.noopResume = @ \/ (backlog = <<>> /\ \A i \in 1..Len(cmds) : cmds[i].c = "noop")])
-  /\ UNCHANGED <<D, msgs, seen, jobs, now>>
+  /\ UNCHANGED <<D, msgs, seen, jobs, lpass, now>>
   /\ ev' = [a |-> "OpResume"]
 \* stop_workflow(state): SUCCESS only from RUNNING (else WorkflowException); ERROR ignored for a PAUSED or finished
 \* execution (KF-C11-1); CANCELLED from RUNNING or PAUSED
@@ -377,13 +415,13 @@ OpStop(s) ==
                     [] s = "ERROR" -> IF wf = "RUNNING" THEN [Cur EXCEPT !.wf = "ERROR"]
                                       ELSE [Cur EXCEPT !.hist.stopIgnored = @ \/ (wf = "PAUSED")]
                     [] s = "CANCELLED" -> IF wf \in {"RUNNING", "PAUSED"} THEN [Cur EXCEPT !.wf = "CANCELLED"] ELSE Cur))
-  /\ UNCHANGED <<D, msgs, seen, jobs, now>>
+  /\ UNCHANGED <<D, msgs, seen, jobs, lpass, now>>
   /\ ev' = [a |-> "OpStop", s |-> s]
 
-Enabled == msgs # {} \/ ptq # {} \/ \E j \in jobs : j.phase # "new" \/ j.at <= now
+Enabled == msgs # {} \/ ptq # {} \/ lpass.active \/ \E j \in jobs : j.phase # "new" \/ j.at <= now
 TickTo(x) ==
   /\ now' = x
-  /\ UNCHANGED <<D, wf, tk, ax, msgs, seen, ptq, jobs, backlog, hist>>
+  /\ UNCHANGED <<D, wf, tk, ax, msgs, seen, ptq, jobs, backlog, lpass, hist>>
   /\ ev' = [a |-> "Tick"]
 Tick ==
   /\ ~Enabled /\ \E j \in jobs : j.at > now
@@ -394,6 +432,7 @@ Next == \/ StartWorkflow
         \/ \E m \in msgs : Deliver(m)
         \/ \E c \in seen : Dup(c)
         \/ \E j \in jobs : JobCapture(j) \/ JobInvoke(j) \/ JobDelete(j)
+        \/ LPoll \/ LInvoke \/ LDelete
         \/ OpPause \/ OpResume \/ \E s \in Final : OpStop(s)
         \/ Tick
 Spec == /\ Init /\ [][Next]_vars
